@@ -1,59 +1,26 @@
 ------------------------------- MODULE Bounds -------------------------------
 (***************************************************************************)
-(* C09 at the design level: the length of what the decimal float writer    *)
-(* lays out, as arithmetic on                                              *)
-(*    nd  number of significant digits kept (no trailing zeros), nd >= 1   *)
-(*    se  scientific exponent of the leading digit                         *)
-(*    o   [min, max, pos, neg, trim]           (write-float options)       *)
-(*    fl  [noexp, reqexp, reqsign]              (format flags)             *)
-(* OutLen is the length of MC_FloatWrite!LayOut's byte string (MC_Bounds    *)
-(* checks the two agree on every small case), without the mantissa sign.   *)
-(* LongestOutput is the maximum over every (nd, se) a float of the type    *)
-(* can have; a buffer bound is sufficient only if it is at least that.     *)
+(* C09 at the design level, part 2: the maximum of BoundsCore!OutLen over   *)
+(* every float of a type (recursive scan, and the candidate exponents used  *)
+(* on traces).  The recursion-free arithmetic lives in BoundsCore so that   *)
+(* Apalache can read it (AP_Bounds.tla).                                    *)
 (***************************************************************************)
-EXTENDS Integers
-
-DecLen(n) == IF n < 10 THEN 1 ELSE IF n < 100 THEN 2 ELSE IF n < 1000 THEN 3 ELSE IF n < 10000 THEN 4 ELSE 5
-Max2(a, b) == IF a >= b THEN a ELSE b
-Min2(a, b) == IF a <= b THEN a ELSE b
-
-WantSci(se, o, fl) == ~fl.noexp /\ (fl.reqexp \/ se < o.neg \/ se > o.pos)
-
-OutLen(nd, se, o, fl) ==
-    LET nf == Max2(nd, o.min) IN                               \* digits incl. min_significant_digits padding
-    IF WantSci(se, o, fl) THEN
-        (IF nf = 1 THEN (IF o.trim THEN 1 ELSE 3) ELSE nf + 1)                \* d | d.0 | d.ddd
-        + 1                                                                    \* exponent character
-        + (IF se < 0 THEN 1 + DecLen(0 - se) ELSE (IF fl.reqsign THEN 1 ELSE 0) + DecLen(se))
-    ELSE IF se >= 0 THEN
-        (IF nd <= se + 1 /\ o.trim THEN se + 1                                \* integral and trimmed
-         ELSE IF nf <= se + 1 THEN se + 3                                      \* ddd.0
-         ELSE nf + 1)                                                          \* dd.ddd
-    ELSE 1 - se + nf                                                          \* 0.000ddd : 2 + (-se-1) + nf
-
-(* the floats of a type: range of se, and how many shortest digits a float with that se can need.  The   *)
-(* count for subnormals is deliberately low (never more than exist), so the demand is never exaggerated. *)
-TypeDom == [f64 |-> [lo |-> -324, hi |-> 308, nmax |-> 17, sub |-> -307],
-            f32 |-> [lo |-> -45,  hi |-> 38,  nmax |-> 9,  sub |-> -37]]
-NMax(ty, se) == LET T == TypeDom[ty] IN IF se >= T.sub THEN T.nmax ELSE Max2(1, se - T.lo)
-
-(* digits kept when max_significant_digits = mx cuts n generated digits, without a carry (digits 1..1) *)
-Kept(n, mx) == IF mx > 0 THEN Min2(n, mx) ELSE n
+EXTENDS BoundsCore
 
 (* exhaustive maximum over every scientific exponent of the type (slow: used by MC_Bounds only, to justify Cands) *)
 RECURSIVE LongestFrom(_, _, _, _, _)
 LongestFrom(ty, se, o, fl, best) ==
-    IF se > TypeDom[ty].hi THEN best
+    IF se > TypeDom(ty).hi THEN best
     ELSE LET a == OutLen(Kept(NMax(ty, se), o.max), se, o, fl)
              b == OutLen(1, se, o, fl)
              m == Max2(a, b)
          IN  LongestFrom(ty, se + 1, o, fl, Max2(m, best))
-LongestExhaustive(ty, o, fl) == 1 + LongestFrom(ty, TypeDom[ty].lo, o, fl, 0)
+LongestExhaustive(ty, o, fl) == 1 + LongestFrom(ty, TypeDom(ty).lo, o, fl, 0)
 
 (* OutLen is piecewise monotone in se; the pieces end at the breaks, at the sign change, where the exponent *)
 (* gains a digit, and at the ends of the type's range: the maximum is attained at one of these candidates   *)
 Cands(ty, o) ==
-    LET T == TypeDom[ty] IN
+    LET T == TypeDom(ty) IN
     { T.lo, T.hi, T.sub - 1, T.sub, -100, -99, -10, -9, -1, 0, 9, 10, 99, 100, o.neg - 1, o.neg, o.pos, o.pos + 1 } \cap (T.lo .. T.hi)
 
 LenAt(ty, se, o, fl) == Max2(OutLen(Kept(NMax(ty, se), o.max), se, o, fl), OutLen(1, se, o, fl))
@@ -64,17 +31,4 @@ LongestOutput(ty, o, fl) ==
         s == CHOOSE x \in C : \A y \in C : LenAt(ty, x, o, fl) >= LenAt(ty, y, o, fl)
     IN  [len |-> 1 + LenAt(ty, s, o, fl), se |-> s]
 
-(***************************************************************************)
-(* The bound the code documents (lexical-write-float options.rs,           *)
-(* buffer_size_const, decimal, after fix 1366816 / 3da4759): the *design*  *)
-(* whose sufficiency MC_Bounds checks; traces are NOT compared with this   *)
-(* formula, only with LongestOutput.                                       *)
-(***************************************************************************)
-Abs(x) == IF x < 0 THEN 0 - x ELSE x
-DocBound(o, fl, pow2, formattedSize, Variant) ==
-    LET expRoom == IF pow2 THEN 13 ELSE 12
-        zeros == IF ~fl.noexp THEN Max2(Max2(Abs(o.neg), o.pos), expRoom) - (IF Variant = "exp_room_minus_1" THEN 1 ELSE 0)
-                 ELSE IF pow2 THEN 1075 ELSE 324
-        digits == IF Variant = "max_lowers" /\ o.max > 0 THEN Max2(o.max, o.min) ELSE Max2(28, o.min)
-    IN  Max2(2 + zeros + digits, formattedSize)
 =============================================================================
